@@ -599,6 +599,11 @@ func (t *transitiveClosure) addElement(
 			t.elements[descriptor] = inclusionModeExcluded
 			return nil
 		}
+		if t.isFieldTypeExcluded(typedDescriptor, imageIndex) {
+			// The type is excluded, so this extension is also excluded and does not need its extendee.
+			t.elements[descriptor] = inclusionModeExcluded
+			return nil
+		}
 		if err := t.addElement(extendeeInfo.element, descriptorInfo.file.Path(), impliedByCustomOption, imageIndex, opts); err != nil {
 			return err
 		}
